@@ -40,19 +40,29 @@ class DistinguisherMixin(abc.ABC):
         data = data.reshape((o_shape[0], -1))
         try:
             self._origin_shape
+            initial_state = None
         except AttributeError:
-            logger.debug('Initialize distinguisher state.')
-            self._origin_shape = o_shape
-            logger.debug(f'Origin shape {self._origin_shape}')
-            mem = psutil.virtual_memory().available / 2 ** 30
-            logger.debug(f'Memory usage before compute {mem} GB.')
-            self._initialize(traces=traces, data=data)
+            # Keep the state as it was before this first update, to restore it if the update is rejected.
+            initial_state = dict(self.__dict__)
+        try:
+            if initial_state is not None:
+                logger.debug('Initialize distinguisher state.')
+                self._origin_shape = o_shape
+                logger.debug(f'Origin shape {self._origin_shape}')
+                mem = psutil.virtual_memory().available / 2 ** 30
+                logger.debug(f'Memory usage before compute {mem} GB.')
+                self._initialize(traces=traces, data=data)
 
-        self._check(traces=traces, data=data)
+            self._check(traces=traces, data=data)
 
+            logger.info('Will call _update traces.')
+            self._update(traces=traces, data=data)
+        except Exception:
+            if initial_state is not None:
+                self.__dict__.clear()
+                self.__dict__.update(initial_state)
+            raise
         self.processed_traces += traces.shape[0]
-        logger.info('Will call _update traces.')
-        self._update(traces=traces, data=data)
 
     @abc.abstractmethod
     def _initialize(self, traces, data):
